@@ -694,7 +694,7 @@ def run(ctx):
     # T1 tie (harness/t1.py): see c12.py
     t1_ok = t1.tie(ctx, "C16")
     ctx.log('T1 tie: %s' % t1_ok)
-    ok, why = ctx.coq_props(expect_min=12)
+    ok, why = ctx.coq_props(expect_min=27)
     ctx.log('Props/C16.v checked: %s %s' % (ok, why[:300]))
     for what, rep in bad[:8]:
         ctx.violation(what, rep)
@@ -703,6 +703,11 @@ def run(ctx):
     ctx.extra["exhaustive"] = True
     ctx.extra["exhaustive_note"] = "the arithmetic domain named by the property is enumerated completely; scores/parts are sampled"
     run_driver(ctx)
+    # histories on ONE real Interval object: transpose() / transpose_note / .semitones interleaved with change_quality and
+    # assignments of number / quality / direction; every step judged from the object's current fields (shared with C12:
+    # harness/props/c12.py run_histories, Model/C12_Interval.v)
+    from props import c12 as hist12
+    hist12.run_histories(ctx, with_tr=True, objects=False)
 
 
 def replay(obj):
@@ -714,6 +719,9 @@ def replay(obj):
     k = r.get("kind")
     if k == "t1":
         return t1.replay(r)
+    if k == "history":
+        from props import c12 as hist12
+        return hist12.replay_history(r)
     if k == "note":
         note = S.Note(r["step"], r["octave"], r["alter"])
         M._transpose_note_inplace(note, S.Interval(r["number"], r["quality"], r["direction"]))
